@@ -713,7 +713,29 @@ func (db *Default) removeDevice(ctx context.Context, id agd.DeviceID) {
 	db.mapsMu.Lock()
 	defer db.mapsMu.Unlock()
 
+	// Recheck, since the maps could have been updated while this goroutine was
+	// waiting for the lock.
+	if db.hasDevice(id) {
+		return
+	}
+
 	delete(db.deviceIDToProfileID, id)
+}
+
+// hasDevice returns true if id is the ID of a known device that belongs to a
+// known profile.  db.mapsMu must be locked.
+func (db *Default) hasDevice(id agd.DeviceID) (ok bool) {
+	profID, ok := db.deviceIDToProfileID[id]
+	if !ok {
+		return false
+	}
+
+	p, ok := db.profiles[profID]
+	if !ok {
+		return false
+	}
+
+	return slices.Contains(p.DeviceIDs, id) && db.devices[id] != nil
 }
 
 // removeDedicatedIP removes the device link for the given dedicated IP address
@@ -723,6 +745,14 @@ func (db *Default) removeDedicatedIP(ctx context.Context, ip netip.Addr) {
 
 	db.mapsMu.Lock()
 	defer db.mapsMu.Unlock()
+
+	// Recheck, since the address could have been given to another device while
+	// this goroutine was waiting for the lock.
+	if id, ok := db.dedicatedIPToDeviceID[ip]; ok {
+		if d := db.devices[id]; d != nil && slices.Contains(d.DedicatedIPs, ip) {
+			return
+		}
+	}
 
 	delete(db.dedicatedIPToDeviceID, ip)
 }
@@ -791,6 +821,14 @@ func (db *Default) removeHumanID(ctx context.Context, k humanIDKey) {
 	db.mapsMu.Lock()
 	defer db.mapsMu.Unlock()
 
+	// Recheck, since the human ID could have been given to another device while
+	// this goroutine was waiting for the lock.
+	if id, ok := db.humanIDToDeviceID[k]; ok {
+		if d := db.devices[id]; d != nil && d.HumanIDLower == k.lower {
+			return
+		}
+	}
+
 	delete(db.humanIDToDeviceID, k)
 }
 
@@ -855,6 +893,14 @@ func (db *Default) removeLinkedIP(ctx context.Context, ip netip.Addr) {
 
 	db.mapsMu.Lock()
 	defer db.mapsMu.Unlock()
+
+	// Recheck, since the address could have been linked to another device while
+	// this goroutine was waiting for the lock.
+	if id, ok := db.linkedIPToDeviceID[ip]; ok {
+		if d := db.devices[id]; d != nil && d.LinkedIP == ip {
+			return
+		}
+	}
 
 	delete(db.linkedIPToDeviceID, ip)
 }
